@@ -39,6 +39,11 @@ BENCHMARKS = ['impreflex-compressed-goal', 'transfer-simple-compressed-goal', 'p
 
 def image(g, t):
     if isinstance(t, str):
+        kind = getattr(g, 'kinds', {}).get(t)
+        if kind == 'amb': return ('v', t)      # #Variable: an element or a set variable (the converter's choice), consistently
+        if kind == 'e': return ('e', t)
+        if kind == 's': return ('s', t)
+        if kind == 'sym': return R.Y(t)
         return R.MV(int(t[2:]))
     head = t[0]
     if head == '\\imp': return R.I(image(g, t[1]), image(g, t[2]))
@@ -66,11 +71,20 @@ class Bij(R.SymbolBijection):
     def __init__(self):
         super().__init__()
         self.mf = {}; self.mb = {}
+        self.vf = {}; self.vb = {}
 
     def new_statement(self):
         self.mf = {}; self.mb = {}
+        self.vf = {}; self.vb = {}
 
     def unify(self, a, b):
+        if a[0] in ('v', 'e', 's') and isinstance(a[1], str):
+            # object variables: per-statement map, injective within each kind; distinct database variables stay distinct
+            if b[0] not in ('e', 's') or (a[0] != 'v' and a[0] != b[0]): return False
+            if a[1] in self.vf: return self.vf[a[1]] == b[:2]
+            if b[:2] in self.vb: return False
+            self.vf[a[1]] = b[:2]; self.vb[b[:2]] = a[1]
+            return True
         if a[0] == 'm' and b[0] == 'm':
             if a[2:] != b[2:]: return False
             if a[1] in self.mf: return self.mf[a[1]] == b[1]
@@ -112,7 +126,8 @@ def judge_files(files, case, what):
 @st.composite
 def cases(draw):
     rnd = mmgen.DrawRnd(draw)
-    g, goal, rpn, texts = mmgen.make(rnd)
+    # half of the databases also declare #Variable / #ElementVariable / #SetVariable / #Symbol variables and |- axioms over them
+    g, goal, rpn, texts = mmgen.make(rnd, extras=draw(st.booleans()))
     return {'gen': g, 'goal': goal, 'rpn': rpn, 'texts': texts, 'child_seed': draw(st.sampled_from([None, None, None, 1, 2, 3, 77]))}
 
 
@@ -131,8 +146,12 @@ def body(c, stats: Stats):
             stats.notes.append('generator unsound: %s' % str(e)[:100])
             return
     A = g.assertions()
-    exp_axioms = [rule_image(g, [], t) for l, t in g.axioms.items()] + [rule_image(g, hs, t) for l, (hs, t) in g.rules.items()]
+    exp_axioms = [rule_image(g, [], t) for l, t in g.axioms.items()] + [rule_image(g, hs, t) for l, (hs, t) in g.rules.items()] \
+        + [image(g, t) for _, t in getattr(g, 'extra_axioms', [])]
+    has_kinds = bool(getattr(g, 'kinds', None))
+    cj['exp_axioms'] = exp_axioms   # (JSON) so that a replay applies the image oracle without the generator object
     exp_claim = image(g, goal)
+    cj['exp_claim'] = exp_claim
     nvars = len(mmgen.tvars(goal))
     uses_rule = any(l in g.rules for l in rpn)
     uses_mp = 'proof-rule-mp' in rpn
@@ -157,7 +176,7 @@ def body(c, stats: Stats):
             base = os.path.join(d, 'out', 'db')
             rc = rustharness.run_checker_files(base + '.ml-gamma', base + '.ml-claim', base + '.ml-proof', exe)
             nt = (uses_rule and uses_mp and has_z) or nvars >= 2
-            stats.case(t, nt, ['layout-' + zm, 'vars-%d' % nvars] + (['uses-rule'] if uses_rule else []) + (['uses-mp'] if uses_mp else []) + (['has-Z'] if has_z else []),
+            stats.case(t, nt, ['layout-' + zm, 'vars-%d' % nvars] + (['uses-rule'] if uses_rule else []) + (['uses-mp'] if uses_mp else []) + (['has-Z'] if has_z else []) + (['variable-kinds'] if has_kinds else []),
                        {'goal': mmgen.tstr(goal), 'layout': zm, 'proof': t.split('$=')[-1].strip()[:120], 'rpn_steps': len(rpn)})
             if rc != 0:
                 raise Violation('the checker rejects the translated proof (layout %s; documented machine: %s %s)\n%s'
@@ -171,7 +190,7 @@ def body(c, stats: Stats):
                 bij.new_statement(); ok = bij.unify(exp_claim, m.claimed[0])
             if not ok:
                 raise Violation('published claim %s is not the image %s of the target statement |- %s\n%s'
-                                % ([R.show(x) for x in m.claimed], R.show(exp_claim), mmgen.tstr(goal), t), dict(cj, layout=zm), 'claim-image')
+                                % ([R.show(x) for x in m.claimed], sh(exp_claim), mmgen.tstr(goal), t), dict(cj, layout=zm), 'claim-image')
             ok = len(m.axioms) == len(exp_axioms)
             if ok:
                 for e, a in zip(exp_axioms, m.axioms):
@@ -179,7 +198,7 @@ def body(c, stats: Stats):
                     if not bij.unify(e, a): ok = False; break
             if not ok:
                 raise Violation('published axioms %s are not the images %s of the database axioms and rules\n%s'
-                                % ([R.show(x) for x in m.axioms], [R.show(x) for x in exp_axioms], t), dict(cj, layout=zm), 'axiom-images')
+                                % ([R.show(x) for x in m.axioms], [sh(x) for x in exp_axioms], t), dict(cj, layout=zm), 'axiom-images')
             journals[zm] = (m.axioms, m.claimed, m.proved)
         if len({repr(v) for v in journals.values()}) > 1:
             raise Violation('compression layouts give different published theories/claims', cj, 'layout-differs')
@@ -233,6 +252,19 @@ def shard(stats: Stats, shard_i, nshards, seed, tier):
     common.run_given(stats, seed, n, cases(), body)
 
 
+def sh(p):
+    """R.show for expected images (object variables carry their database names)"""
+    def cv(q):
+        if q[0] in ('v', 'e', 's') and isinstance(q[1], str): return ('y', '%s:%s' % ({'v': 'var', 'e': 'evar', 's': 'svar'}[q[0]], q[1]))
+        if q[0] in ('i', 'a'): return (q[0], cv(q[1]), cv(q[2]))
+        return q
+    return R.show(cv(p))
+
+
+def _tup(x):
+    return tuple(_tup(y) for y in x) if isinstance(x, list) else x
+
+
 def replay_texts(case):
     """Replay without the generator object: translation success + checker acceptance + layouts agree (image oracle needs the generator)."""
     d = tempfile.mkdtemp(prefix='c16r_')
@@ -248,6 +280,20 @@ def replay_texts(case):
             base = os.path.join(d, 'out', 'db')
             if rustharness.run_checker_files(base + '.ml-gamma', base + '.ml-claim', base + '.ml-proof') != 0:
                 raise Violation('checker rejects translated proof (layout %s)' % zm, case, 'checker-rejects')
+            if 'exp_axioms' in case:
+                m = res[1]; bij = Bij()
+                exp_claim = _tup(case['exp_claim']); exp_axioms = [_tup(a) for a in case['exp_axioms']]
+                bij.new_statement()
+                if len(m.claimed) != 1 or not bij.unify(exp_claim, m.claimed[0]):
+                    raise Violation('published claim %s is not the image %s of the target statement' % ([R.show(x) for x in m.claimed], sh(exp_claim)), case, 'claim-image')
+                ok = len(m.axioms) == len(exp_axioms)
+                if ok:
+                    for e, a in zip(exp_axioms, m.axioms):
+                        bij.new_statement()
+                        if not bij.unify(e, a): ok = False; break
+                if not ok:
+                    raise Violation('published axioms %s are not the images %s of the database axioms and rules'
+                                    % ([R.show(x) for x in m.axioms], [sh(x) for x in exp_axioms]), case, 'axiom-images')
         if case.get('child_seed') is not None:
             path = os.path.join(d, 'db.mm')
             open(path, 'w').write(case['texts']['all'])
